@@ -23,6 +23,7 @@ RULE = (
     "whitespace; text without words -> any result without characters, no exception. Non-trivial: >=2 lines with a joined pair, a "
     "word longer than columns, or whitespace with mixed formatting."
     ' Inputs also carry a history (derived from observed parents, divides index filled), words may contain double-width, combining and control characters (length counts characters), texts go up to 300 characters and columns up to 100.'
+    ' A share of cases repeats every call after the caller edited the returned list (same object, then an equal fresh value); words of 3000-140000 characters (thousands of pieces).'
 )
 ASSUMPTIONS = [
     "whitespace = str.isspace, which agrees with re's \\s on every code point (checked over all of Unicode at start of the run)",
